@@ -14,7 +14,7 @@ RULE = ("histories of 5-40 operations over 2 annotation registers: a[s,t]=l, a[s
         "update(other), rename_labels(copy=False), uri assignment, Annotation(), from_records / from_df, each write "
         "followed with probability 1/2 by one or two reads drawn from every read kind (itertracks, labels, "
         "label_timeline + its uri, label_support, label_duration, get_timeline + uri, chart, get_tracks, get_labels, "
-        "has_track, a[s,t], len, bool, segment/timeline containment); plus every history of three writes (set / delete track / delete segment / in-place rename) over two segments and two names used both as track names and labels, a full read after each write (4096 histories); in 30% of the histories the track names are the labels themselves; label and track universes with pairwise distinct "
+        "has_track, a[s,t], len, bool, segment/timeline containment); plus every history of three writes (set / delete track / delete segment / in-place rename) over two segments and two names used both as track names and labels, a full read after each write (4096 histories; all 65536 four-write histories in the thorough tier); in 30% of the histories the track names are the labels themselves; label and track universes with pairwise distinct "
         "str() except the deliberate pair 0 / '0' among tracks; 8% malformed operations (empty segments, deletions of "
         "absent keys); regimes K0/K4/K1; non-trivial = a deletion, overwrite or rename happened between two reads")
 
@@ -77,7 +77,7 @@ def _history(rng, regime):
 
 
 def _small_scope(tier):
-    """every history of 3 (quick) / 4 (thorough: a sample of the length-4 ones) writes over a tiny universe in
+    """every history of 3 (quick) / 4 (thorough) writes over a tiny universe in
     which names serve both as track names and as labels, with a full read after every write"""
     import itertools
     names = [0, "a"]
@@ -90,7 +90,7 @@ def _small_scope(tier):
     reads = [["read", 0, "labels"], ["read", 0, "label_timeline", 0], ["read", 0, "label_timeline", "a"],
              ["read", 0, "get_timeline"], ["read", 0, "iter"]]
     out = []
-    for seq in itertools.product(writes, repeat=3):
+    for seq in itertools.product(writes, repeat=4 if tier == "thorough" else 3):
         ops = []
         for w in seq:
             ops.append(w)
